@@ -34,6 +34,7 @@ Record step := {
   s_to_raw : option bytes;
   s_raw : option rawcur;                  (* the cursor strings of the response *)
   s_tccalls : Z;                          (* calls of ResolveTotalCount *)
+  s_store : Z;                            (* 0: fresh slices; 1: windows of shared storage, storage unchanged after the request; 2: ... modified *)
   s_cost : option (Z * Z * Z)             (* the field's cost: Resolver, Multiplier; the edges field's Multiplier *)
 }.
 Definition s_info (s : step) : bool := want_info (s_sel s).
@@ -214,6 +215,10 @@ Definition dec_step (s : sexp) : option step :=
                               s_after_raw := dec_rawarg "afterraw" a; s_before_raw := dec_rawarg "beforeraw" a;
                               s_from_raw := dec_rawarg "fromraw" a; s_to_raw := dec_rawarg "toraw" a;
                               s_raw := dec_raw o;
+                              s_store := match field1 "store" l with
+                                         | Some x => match as_Z x with Some z => z | None => 0%Z end
+                                         | None => 0%Z
+                                         end;
                               s_cost := match field "cost" l with
                                         | Some [x; y; z] => match as_Z x, as_Z y, as_Z z with
                                                             | Some x', Some y', Some z' => Some (x', y', z')
@@ -615,6 +620,9 @@ Definition step_classes (E : list edge) (g : query -> list edge) (s : step) : li
            | Some (_ :: _), _ => true | _, Some (_ :: _) => true | _, _ => false end) "cursor-string-decoded-by-model"
   ++ cond (existsb (Z.eqb 3) (s_raised s)) "non-slice-answer"
   ++ cond (existsb (Z.eqb 3) (s_raised s) && negb (match raised_real 0 (s_raised s) with [] => true | _ => false end)) "non-slice-answer-and-getter-error"
+  ++ cond (Z.eqb (s_store s) 1) "getter-answers-windows-of-shared-storage"
+  ++ cond (Z.eqb (s_store s) 1 && Nat.ltb 1 (List.length (filter (fun c => match snd c with [] => false | _ => true end) (s_calls s))))
+          "shared-storage-several-non-empty-answers"
   ++ cond (want_total (s_sel s)) "total-count"
   ++ cond (tc_fails s) "total-count-error"
   ++ cond (want_total (s_sel s) && match fst (fst xm), snd (fst xm) with XPage _ _ _, [] => true | _, _ => false end) "total-count-without-fetch"
@@ -672,7 +680,9 @@ Definition check (c : sexp) : sexp :=
       | Some (SL es), Some gk, Some k, Some (SL ss) =>
           match map_opt dec_edge es, dec_getter gk, dec_kind k, map_opt dec_step ss with
           | Some E, Some mk, Some kd, Some steps =>
-              if negb (nodupb E) then v_bad "duplicate-cursors-in-data-set"
+              if existsb (fun s => Z.eqb (s_store s) 2) steps
+              then v_oracle_fail "application-storage-modified" []
+              else if negb (nodupb E) then v_bad "duplicate-cursors-in-data-set"
               else if negb (forallb (fun s => forallb (fun cr => Z.eqb (snd cr) 1 || Z.eqb (snd cr) 3 || call_honoured E (mk E) (fst cr))
                                                       (combine (s_calls s) (s_raised s))) steps)
               then v_bad "harness-getter-does-not-honour-the-triple"
